@@ -52,27 +52,37 @@ def altFor (tid : Nat) : Ty → Ty
   | .union alts => (Coal.findAlt tid alts).getD .null
   | t => t
 
+/-- one field of the target object type, by NAME, from the source object (NULL when the source lacks it) -/
+def relayoutField (rec : Ty → Ty → Value → Value) (sn : List Name) (st : List Ty) (xs : List Value) (nt : Name × Ty) : Value :=
+  match firstIndexOf sn nt.1 with
+  | some j => (match xs[j]?, st[j]? with
+    | some x, some sj => rec nt.2 sj x
+    | _, _ => .null)
+  | none => .null
+
+/-- object: every field of the target type -/
+def relayoutStruct (rec : Ty → Ty → Value → Value) (tn : List Name) (tt : List Ty) (sn : List Name) (st : List Ty)
+    (xs : List Value) : Value :=
+  .struct ((tn.zip tt).map (relayoutField rec sn st xs))
+
+/-- tuple: position by position over the target element types, NULL where the source tuple has ended -/
+def relayoutElems (rec : Ty → Ty → Value → Value) : List Ty → List Ty → List Value → List Value
+  | [], _, _ => []
+  | t :: ts, s :: ss, x :: xs => rec t s x :: relayoutElems rec ts ss xs
+  | _ :: ts, ss, xs => .null :: relayoutElems rec ts ss.tail xs.tail
+
+def relayoutTuple (rec : Ty → Ty → Value → Value) (te se : List Ty) (xs : List Value) : Value :=
+  .tuple (relayoutElems rec te se xs)
+
 /-- a value of type `source`, re-laid-out for type `target`: object fields go to the position their NAME has in the
     target (fields the source lacks are NULL), recursively through lists, tuples (padded with NULL) and unions. -/
 def relayout : Nat → Ty → Ty → Value → Value
   | 0, _, _, v => v
   | fuel + 1, target, source, v =>
-    let t := altFor v.rank target
-    let s := altFor v.rank source
-    match v, t, s with
-    | .struct xs, .struct tn tt, .struct sn st =>
-      .struct ((tn.zip tt).map fun (nt : Name × Ty) =>
-        match firstIndexOf sn nt.1 with
-        | some j => (match xs[j]?, st[j]? with
-          | some x, some sj => relayout fuel nt.2 sj x
-          | _, _ => .null)
-        | none => .null)
+    match v, altFor v.rank target, altFor v.rank source with
+    | .struct xs, .struct tn tt, .struct sn st => relayoutStruct (relayout fuel) tn tt sn st xs
     | .list xs, .list te, .list se => .list (xs.map fun x => relayout fuel te se x)
-    | .tuple xs, .tuple te, .tuple se =>
-      .tuple (te.zipIdx.map fun (ti : Ty × Nat) =>
-        match xs[ti.2]?, se[ti.2]? with
-        | some x, some sj => relayout fuel ti.1 sj x
-        | _, _ => .null)
+    | .tuple xs, .tuple te, .tuple se => relayoutTuple (relayout fuel) te se xs
     | _, _, _ => v
 
 /-- COALESCE: the first non-NULL argument, re-laid-out for the result type; NULL when there is none -/
